@@ -473,6 +473,13 @@ func normalise(mod []*packages.Package, fset *token.FileSet, known map[string]bo
 					resNames = append(resNames, fmt.Sprintf("%s_r%d", tag, i))
 				}
 				named := nres > 0 && sig.Results().At(0).Name() != "" && sig.Results().At(0).Name() != "_"
+				// exits that the caller's test right after the call sends to its terminating branch
+				// are threaded to a copy of that branch (see threadPlan)
+				var plan *threadPlan
+				if !cd.lit && (s.kind == "define" || s.kind == "assign") {
+					plan = planThreading(info, s, cd, nres)
+				}
+				ftag := tag + "f"
 				var walk func(n ast.Node, inLit bool)
 				walk = func(n ast.Node, inLit bool) {
 					ast.Inspect(n, func(m ast.Node) bool {
@@ -499,8 +506,12 @@ func normalise(mod []*packages.Package, fset *token.FileSet, known map[string]bo
 								}
 								bedits = append(bedits, textEdit{off(x.Pos()), off(x.Pos()) + len("return"), "{ " + strings.Join(resNames, ", ") + " = " + strings.Join(ns, ", ") + "; break " + tag + " }"})
 							} else {
+								target := tag
+								if plan != nil && plan.failing[x] {
+									target = ftag
+								}
 								bedits = append(bedits, textEdit{off(x.Pos()), off(x.Pos()) + len("return"), "{ " + strings.Join(resNames, ", ") + " ="})
-								bedits = append(bedits, textEdit{off(x.End()), off(x.End()), "; break " + tag + " }"})
+								bedits = append(bedits, textEdit{off(x.End()), off(x.End()), "; break " + target + " }"})
 							}
 						}
 						return true
@@ -610,7 +621,12 @@ func normalise(mod []*packages.Package, fset *token.FileSet, known map[string]bo
 					out.WriteString("}(); ")
 				} else {
 					out.WriteString(resDecl.String())
-					out.WriteString(tag + ": for { " + bind.String())
+					threaded := plan != nil && len(plan.failing) > 0
+					out.WriteString(tag + ": for { ")
+					if threaded {
+						out.WriteString(ftag + ": for { ")
+					}
+					out.WriteString(bind.String())
 					if named {
 						for i := 0; i < nres; i++ {
 							fmt.Fprintf(&out, "var %s %s; _ = %s; ", sig.Results().At(i).Name(), resTypes[i], sig.Results().At(i).Name())
@@ -619,7 +635,31 @@ func normalise(mod []*packages.Package, fset *token.FileSet, known map[string]bo
 					fmt.Fprintf(&out, "\n//line %s:%d\n", calleePos.Filename, calleePos.Line)
 					out.Write(body)
 					fmt.Fprintf(&out, "\n//line %s:%d\n", stmtEnd.Filename, stmtEnd.Line)
-					out.WriteString("; break " + tag + " }; ")
+					if threaded {
+						// the failing exits arrive here, outside the callee's scope: hand over the
+						// results and run a copy of the caller's terminating branch
+						as := s.stmt.(*ast.AssignStmt)
+						var ls, keep []string
+						for _, l := range as.Lhs {
+							t := argText(l)
+							ls = append(ls, t)
+							if id, ok := l.(*ast.Ident); ok && id.Name != "_" {
+								keep = append(keep, "_ = "+id.Name+"; ")
+							}
+						}
+						op := " = "
+						if s.kind == "define" {
+							op = " := "
+						}
+						bpos := fset.Position(plan.ifs.Body.Lbrace)
+						out.WriteString("; break " + tag + " }; { " + strings.Join(ls, ", ") + op + strings.Join(resNames, ", ") + "; " + strings.Join(keep, ""))
+						fmt.Fprintf(&out, "\n//line %s:%d\n", bpos.Filename, bpos.Line)
+						out.Write(callerSrc[off(plan.ifs.Body.Lbrace)+1 : off(plan.ifs.Body.Rbrace)])
+						fmt.Fprintf(&out, "\n//line %s:%d\n", stmtEnd.Filename, stmtEnd.Line)
+						out.WriteString("} }; ")
+					} else {
+						out.WriteString("; break " + tag + " }; ")
+					}
 				}
 				// hand the results to the statement
 				tail := ""
@@ -935,3 +975,201 @@ func readOnlyParam(info *types.Info, fd *ast.FuncDecl, pv *types.Var) bool {
 	return ok
 }
 
+
+// threadPlan: the statement after `a, b := helper(...)` is
+// `if <test of one result> { ...; return ... }`.  The exits of the helper
+// whose value for that result decides the test on its face (a literal nil /
+// true / false, an error just constructed, the variable of an enclosing
+// `if err != nil`) are sent straight to a copy of the terminating branch, the
+// way the un-extracted code was written; all other exits take the ordinary
+// route and meet the test itself.  This keeps a value and the flag that
+// guards it from being merged into uncorrelated phis.
+type threadPlan struct {
+	ifs     *ast.IfStmt
+	failing map[*ast.ReturnStmt]bool
+}
+
+func planThreading(info *types.Info, s *inlineSite, cd *inlineCand, nres int) *threadPlan {
+	as, ok := s.stmt.(*ast.AssignStmt)
+	if !ok || len(as.Lhs) != nres {
+		return nil
+	}
+	// the statement that follows the call in its block
+	var next ast.Stmt
+	ast.Inspect(s.file, func(n ast.Node) bool {
+		var list []ast.Stmt
+		switch x := n.(type) {
+		case *ast.BlockStmt:
+			list = x.List
+		case *ast.CaseClause:
+			list = x.Body
+		case *ast.CommClause:
+			list = x.Body
+		}
+		for i, st := range list {
+			if st == s.stmt && i+1 < len(list) {
+				next = list[i+1]
+			}
+		}
+		return next == nil
+	})
+	ifs, ok := next.(*ast.IfStmt)
+	if !ok || ifs.Init != nil || ifs.Else != nil || len(ifs.Body.List) == 0 {
+		return nil
+	}
+	// the tested result and the outcome that enters the branch
+	var name, want string
+	isNilIdent := func(e ast.Expr) bool {
+		id, ok := e.(*ast.Ident)
+		if !ok {
+			return false
+		}
+		_, isNil := info.Uses[id].(*types.Nil)
+		return isNil
+	}
+	switch c := ifs.Cond.(type) {
+	case *ast.BinaryExpr:
+		id, ok := c.X.(*ast.Ident)
+		if !ok || !isNilIdent(c.Y) {
+			return nil
+		}
+		switch c.Op {
+		case token.NEQ:
+			name, want = id.Name, "nonnil"
+		case token.EQL:
+			name, want = id.Name, "nil"
+		default:
+			return nil
+		}
+	case *ast.UnaryExpr:
+		id, ok := c.X.(*ast.Ident)
+		if !ok || c.Op != token.NOT {
+			return nil
+		}
+		name, want = id.Name, "false"
+	case *ast.Ident:
+		name, want = c.Name, "true"
+	default:
+		return nil
+	}
+	idx := -1
+	for i, l := range as.Lhs {
+		if id, ok := l.(*ast.Ident); ok && id.Name == name && name != "_" {
+			idx = i
+		}
+	}
+	if idx < 0 {
+		return nil
+	}
+	// the branch terminates and can be copied
+	switch last := ifs.Body.List[len(ifs.Body.List)-1].(type) {
+	case *ast.ReturnStmt:
+	case *ast.ExprStmt:
+		call, ok := last.X.(*ast.CallExpr)
+		if !ok {
+			return nil
+		}
+		if id, ok := call.Fun.(*ast.Ident); !ok || id.Name != "panic" {
+			return nil
+		}
+	default:
+		return nil
+	}
+	copyable := true
+	ast.Inspect(ifs.Body, func(n ast.Node) bool {
+		switch n.(type) {
+		case *ast.BranchStmt, *ast.LabeledStmt, *ast.FuncLit, *ast.DeferStmt, *ast.GoStmt:
+			copyable = false
+		}
+		return copyable
+	})
+	if !copyable {
+		return nil
+	}
+	plan := &threadPlan{ifs: ifs, failing: map[*ast.ReturnStmt]bool{}}
+	// classify the helper's exits
+	var stack []ast.Node
+	assignedIn := func(body *ast.BlockStmt, obj types.Object) bool {
+		found := false
+		ast.Inspect(body, func(n ast.Node) bool {
+			switch x := n.(type) {
+			case *ast.AssignStmt:
+				for _, l := range x.Lhs {
+					if id, ok := l.(*ast.Ident); ok && (info.Uses[id] == obj || info.Defs[id] == obj) {
+						found = true
+					}
+				}
+			case *ast.UnaryExpr:
+				if id, ok := x.X.(*ast.Ident); ok && x.Op == token.AND && info.Uses[id] == obj {
+					found = true
+				}
+			}
+			return !found
+		})
+		return found
+	}
+	classify := func(e ast.Expr) string {
+		switch x := e.(type) {
+		case *ast.Ident:
+			switch o := info.Uses[x].(type) {
+			case *types.Nil:
+				return "nil"
+			case *types.Const:
+				if o.Parent() == types.Universe && (x.Name == "true" || x.Name == "false") {
+					return x.Name
+				}
+			case *types.Var:
+				// the variable of an enclosing `if v != nil` that the branch does not assign
+				for i := len(stack) - 1; i >= 0; i-- {
+					is, ok := stack[i].(*ast.IfStmt)
+					if !ok {
+						continue
+					}
+					be, ok := is.Cond.(*ast.BinaryExpr)
+					if !ok || be.Op != token.NEQ || !isNilIdent(be.Y) {
+						continue
+					}
+					cid, ok := be.X.(*ast.Ident)
+					if !ok || info.Uses[cid] != types.Object(o) {
+						continue
+					}
+					// the return must sit in the then-branch
+					if i+1 < len(stack) && stack[i+1] == ast.Node(is.Body) && !assignedIn(is.Body, o) {
+						return "nonnil"
+					}
+				}
+			}
+		case *ast.CallExpr:
+			if sel, ok := x.Fun.(*ast.SelectorExpr); ok {
+				if fn, ok := info.Uses[sel.Sel].(*types.Func); ok && fn.Pkg() != nil {
+					switch fn.Pkg().Path() + "." + fn.Name() {
+					case "fmt.Errorf", "errors.New", "github.com/pkg/errors.New", "github.com/pkg/errors.Errorf":
+						return "nonnil"
+					}
+				}
+			}
+		case *ast.UnaryExpr:
+			if _, ok := x.X.(*ast.CompositeLit); ok && x.Op == token.AND {
+				return "nonnil"
+			}
+		}
+		return ""
+	}
+	ast.Inspect(cd.decl.Body, func(n ast.Node) bool {
+		if n == nil {
+			stack = stack[:len(stack)-1]
+			return true
+		}
+		if _, isLit := n.(*ast.FuncLit); isLit {
+			return false
+		}
+		stack = append(stack, n)
+		if rs, ok := n.(*ast.ReturnStmt); ok && len(rs.Results) == nres {
+			if classify(rs.Results[idx]) == want {
+				plan.failing[rs] = true
+			}
+		}
+		return true
+	})
+	return plan
+}
